@@ -11,37 +11,53 @@ P = 'PydlVerif.C05.'
 THEOREMS = [P + t for t in (
     'lists_of_labels', 'renumber_first_appearance', 'resolve_roots', 'groups_lists', 'groups_sound',
     'groups_complete', 'groups_fof', 'sphere_lists_partial', 'merge_refines', 'spheregroup_fof',
-    'merge_ngroups', 'spheregroup_ngroups')]
+    'merge_ngroups', 'spheregroup_ngroups',
+    'close_is_sep', 'grid_own_cell_pair', 'grid_close_pair_shares_cell', 'grid_no_point_twice', 'grid_occupancy_9n', 'cover_fof_grid',
+    'spheregroup_fof_grid',
+    'spheregroup_returns', 'spheregroup_fof_total')]
 RULE = ('abstract graphs driven through the real class `groups` (callable separation): every graph on <=5 (quick) / <=6 (thorough) '
         'vertices, random sparse/dense/chain/star/stale-label graphs on 6-40 vertices, random directed relations (model only); '
         'spheregroup on chains crossing many cells, RA-seam clusters, polar caps, all-sky scatter, lattice points on cell edges, '
-        'blobs, duplicates, permuted orders, link lengths 1 arcsec-20 deg, chunk sizes None / <4l / 4l / larger. '
+        'blobs, duplicates, permuted orders, link lengths 1 arcsec-20 deg, chunk sizes None / <4l / 4l / larger; every spheregroup '
+        'case also runs the END-TO-END model (grid built by the model itself at binary64): cell lists and all four arrays exact. '
         'A case is non-trivial when it has at least one close pair of distinct points; distinct = distinct case payloads')
-TRUSTED = ['hand-written model lean/PydlVerif/Model/Fof.lean tied to the code by the I/O correspondence of this run',
-           'the chunk grid (chunks.__init__/assign/getbounds) is a parameter of the model: the cell lists of the real run are '
-           'captured and handed to the model; CoverFoF (every point in a cell, every close pair shares a cell) is checked on every case, not proved',
-           'gcirc / libm: the closeness matrix handed to the model is computed with the real gcirc, the oracle uses its own vector formula']
-ASSUMPTIONS = ['the separation test is symmetric and reflexive (checked on every closeness matrix)',
-               'no pair lies within 1e-9 relative (+1e-12 deg) of the link length: such inputs are regenerated, not judged',
-               'two or more points; link length > 0; all coordinates finite, -90 <= dec <= 90, 0 <= ra < 360']
-LEVEL_TEXT = ('Machine-checked Lean 4 theorems, for all sizes, all reflexive symmetric relations and all cell lists, about an executable '
-              'model of groups, friendsoffriends and spheregroup. spheregroup_fof: under CoverFoF (every point in a cell, every close pair '
-              'shares a cell, no point twice in a cell, cell occupancy <= 9n) the output of spheregroup is exactly the friends-of-friends '
-              'partition - same label <=> joined by a chain of close pairs, labels 0,1,2,... in order of first member, first/next exactly '
-              'the sorted member lists, mult[c] the size of group c for every c - every loop terminates and no index leaves the arrays. '
-              'Its parts: groups_fof (the O(n^2) loop of class groups computes the components), merge_refines (the cross-chunk union-find '
-              'with path compression keeps mapGroups[l] <= l and ends with: same resolved label <=> related by the FINEST equivalence '
-              'containing every per-cell partition), resolve_roots, renumber_first_appearance, lists_of_labels. The model is tied to the '
-              'code on every run by exact equality of all output arrays on bounded-exhaustive (all graphs on <=6 vertices) and random '
-              'abstract graphs pushed through the REAL class groups, on abstract cell covers (complete and incomplete) pushed through the '
-              'REAL chunks.friendsoffriends, and on spheregroup runs with the real cell lists; an independent union-find over brute-force '
-              'separations decides the property itself on every case.')
-LEVEL_NOTE = ('The proof is complete relative to its stated hypothesis CoverFoF: the chunk grid (chunks.__init__/assign/getbounds) is a '
-              'parameter of the model, CoverFoF (incl. occupancy <= 9n, the size of the label table the code allocates) is evaluated on the '
-              'captured cells of every case and counted in the evidence, not proved; float rounding in gcirc is outside the model (the '
-              'closeness relation is a parameter, its symmetry/reflexivity is checked per case); the hand-written model is validated by the '
-              'correspondence sample only. sphere_lists_partial is kept (it holds for arbitrary cell lists, without CoverFoF).')
-TECHNIQUE = 'Lean 4 model + theorems; bounded-exhaustive and random I/O correspondence; independent union-find oracle'
+TRUSTED = ['hand-written models lean/PydlVerif/Model/Fof.lean (groups, friendsoffriends, renumbering) and Model/FofGrid.lean (spheregroup end to end, '
+           'on the grid model Model/Sphere.lean shared with C04), tied to the code by the I/O correspondence of this run',
+           'the grid theorems hold over the real numbers with exact cos/sin/arcsin/sqrt: IEEE rounding of the cell edges, of the RA margin and of gcirc '
+           'at the threshold is outside the proof (the binary64 run of the same model is compared cell by cell with the real grid on every case)',
+           'gcirc / libm: the closeness matrix handed to the abstract model is computed with the real gcirc, the end-to-end model uses its own '
+           'transcription of gcirc(units=0) at binary64, the oracle uses its own vector formula']
+ASSUMPTIONS = ['the separation test is symmetric and reflexive (checked on every closeness matrix; proved for the model over the reals: close_is_sep)',
+               'no pair lies within 1e-9 relative (+1e-12 deg) of the link length: such inputs are regenerated, not judged (a rounding matter '
+               'only: over the reals spheregroup_fof_grid covers a separation EXACTLY equal to the link length, grid_close_pair_shares_cell)',
+               'two or more points; link length > 0; all coordinates finite, -90 <= dec <= 90, 0 <= ra < 360',
+               'spheregroup_fof_grid / grid_occupancy_9n: |dec| < 90 and, over the reals, a grid that is not clipped to a pole (cos 90deg = 0 makes the '
+               'constructor raise; binary64 lives on cos(pi/2) = 6e-17): polar-cap grids are covered by the correspondence, the CoverFoF evaluation '
+               'and the oracle only']
+LEVEL_TEXT = ('Machine-checked Lean 4 theorems about an executable model of spheregroup END TO END (chunk size rule, chunks.__init__, assign of the '
+              'same list, getbounds, friendsoffriends, class groups, renumbering, rebuilt lists, recount). spheregroup_fof_grid (over the reals, Mathlib '
+              'trigonometry): whenever the model returns, with |Dec| < 90 and link length > 0, its output IS the '
+              'friends-of-friends partition - same label <=> joined by a chain of pairs with separation <= link length (close_is_sep), labels 0,1,2,... in '
+              'order of first member, first/next exactly the sorted member lists, mult[c] the size of group c for every c, every loop terminates, no '
+              'index leaves an array and the 9n-entry label table does not overflow - for ANY chunk size; no hypothesis about the grid. '
+              'spheregroup_returns / spheregroup_fof_total: it does return for every input whose declinations stay 4.5 chunk sizes away from the poles. '
+              'The former hypothesis CoverFoF is now proved for the grid the code builds (cover_fof_grid), from the grid theorems of C04: '
+              'grid_own_cell_pair (every point is stored in its own cell together with every point closer than the link length), '
+              'grid_close_pair_shares_cell (a pair at EXACTLY the link length still shares a cell: the downward loops of getbounds need no strictness), '
+              'grid_no_point_twice (chunkDone bookkeeping), grid_occupancy_9n (at most 3 declination bands x 3 RA cells per point, hence at most 9n entries: '
+              'the inequality behind the allocation of 9*nPoints labels). spheregroup_fof (kept): the same conclusion for ALL cell lists with CoverFoF, '
+              'all reflexive symmetric relations; its parts groups_fof, merge_refines (union-find with path compression = finest equivalence containing '
+              'the per-cell partitions), resolve_roots, renumber_first_appearance, lists_of_labels. The models are tied to the code on every run by exact '
+              'equality of all outputs: abstract graphs through the REAL class groups (all graphs on <=6 vertices + random), abstract covers through the REAL '
+              'friendsoffriends, spheregroup runs with captured cells, and the end-to-end model at binary64 against the real cell lists and output arrays; '
+              'an independent union-find over brute-force separations decides the property itself on every case.')
+LEVEL_NOTE = ('Proved over the reals, not over binary64: rounding of cell edges, RA margins and of gcirc at the threshold is outside the proof (the binary64 '
+              'run of the same model agrees with the real code cell by cell on every generated case). Over the reals chunks.__init__ raises when a declination edge is clipped to +-90 '
+              '(cos 90deg = 0; the binary64 code lives on cos(pi/2) = 6e-17 > 0), so polar-cap grids are outside the grid theorems: for them CoverFoF incl. '
+              'occupancy <= 9n is evaluated on the captured cells of every case and counted in the evidence (max cells per point observed: 7 in a directed '
+              'search of 60 000 polar configurations, never above 9), not proved. The hand-written models are validated by the correspondence sample only. '
+              'sphere_lists_partial and spheregroup_fof are kept unchanged (they hold for arbitrary cell lists).')
+TECHNIQUE = 'Lean 4 model + theorems (core Lean for the combinatorial part, Mathlib reals for the grid); bounded-exhaustive and random I/O correspondence; independent union-find oracle'
 
 
 # ---------------------------------------------------------------- independent oracle
@@ -752,6 +768,12 @@ def _sphere(ctx, cases=None, oracle_only=False):
     if lines:
         out = core.driver_parallel(lines, workers=12, chunk=max(1, len(lines) // 12))
         model = dict(zip(idx, out))
+    # END-TO-END model (Model/FofGrid.lean `spheregroup` at binary64): the grid is built by the model itself
+    gmodel = {}
+    if not oracle_only:
+        glines = [{'p': 'C05', 'op': 'grid', 'ra': [core.f2b(x) for x in c['ra']], 'dec': [core.f2b(x) for x in c['dec']],
+                   'll': core.f2b(c['ll']), 'cs': None if c['chunksize'] is None else core.f2b(c['chunksize'])} for c in cases]
+        gmodel = dict(enumerate(core.driver_parallel(glines, workers=12, chunk=max(1, len(glines) // 12))))
     for k, (c, r) in enumerate(zip(cases, results)):
         n = len(c['ra'])
         ctx.seen(c, nontrivial=bool(r.get('pairs')))
@@ -787,6 +809,31 @@ def _sphere(ctx, cases=None, oracle_only=False):
                 same = ({kk: m.get(kk) for kk in ('in', 'mult', 'first', 'next')} == impl)
             if not same:
                 ctx.disagree('spheregroup', c, impl, m)
+        if r['chunks'] is not None and n > 1:
+            # statement of grid_occupancy_9n on the real grid: cells per point (the theorem: at most 9)
+            per = [0] * n
+            for cell in r['chunks']:
+                for p_ in cell:
+                    per[p_] += 1
+            ctx.count('sphere:max-cells-per-point=%s' % (max(per) if max(per) <= 9 else 'above-9'))
+        if k in gmodel:
+            gm = gmodel[k]
+            if r['chunks'] is not None:
+                mg = {'grid': [gm.get('nDec'), gm.get('nRa')], 'cells': gm.get('cells'), 'griderr': gm.get('griderr')}
+                ig = {'grid': [r['grid'][0], r['grid'][1]], 'cells': r['chunks'], 'griderr': None}
+                ctx.count('grid-cells:compared')
+                if mg != ig:
+                    ctx.disagree('grid-cells', c, ig, mg)
+            if cov == 'point-in-no-cell':
+                ctx.count('grid-sphere:not-compared(point in no cell)')
+            else:
+                if 'err' in gm and 'err' in impl:
+                    same = impl['err'].startswith('PydlException') and gm['err'].startswith('PydlutilsException')
+                else:
+                    same = ({kk: gm.get(kk) for kk in ('in', 'mult', 'first', 'next')} == impl)
+                ctx.count('grid-sphere:compared')
+                if not same:
+                    ctx.disagree('grid-sphere', c, impl, {kk: gm.get(kk) for kk in ('in', 'mult', 'first', 'next', 'err', 'griderr')})
         bad = _judge_sphere(c, r)
         if bad:
             sig = bad[0]
